@@ -50,6 +50,7 @@ def run(ctx) -> None:
     ctx.guard("C13.template", wash_passthrough)
     ctx.reuse("C13.mask", c10.aggregate_evo)
     ctx.reuse("C13.mask", c10.slots)
+    ctx.reuse("C13.mask", c10.evo_member_conversion)
     ctx.guard("C13.siblings", siblings)
     from .common import memo_rule
 
@@ -77,6 +78,10 @@ def same_args(ctx, name: str, track: str) -> None:
         ok = tt is not None and ft is not None and is_name(strip_norm(tt), param) and is_name(ft, param)
         ctx.rep.check(ok, rule, f"{f.qualname}/{param}", f"tracking and command receive the same `{param}` argument",
                       f"the tracking uses `{show(tt)[:50] if tt is not None else None}` but the command is built from `{show(ft)[:50] if ft is not None else None}`: command and volume tracking describe different {param}", where=w)
+    if track == "add":
+        ct = tb.get("compositions")
+        ctx.rep.check(ct is not None and is_name(fv.res.resolve(ct, T.node), "compositions"), rule, f"{f.qualname}/compositions", "the given compositions are handed to the tracking",
+                      f"the tracking receives compositions=`{show(ct)[:40] if ct is not None else 'nothing'}`: the composition of the dispensed liquid is lost", where=f.where(T.call))
     for k, attr in (("n_rows", "n_rows"), ("n_columns", "n_columns")):
         t = fv.res.resolve(fb[k], F.node) if k in fb else None
         ctx.rep.check(t is not None and attr_of_name(t, "labware", attr), rule, f"{f.qualname}/{k}", f"{k} = labware.{attr}", f"the well bitmap is built for `{show(t) if t is not None else None}` {k}, not for the tracked labware", where=w)
@@ -106,7 +111,11 @@ def _strict_guard(fv, var_names) -> Tuple[bool, str]:
                 bb = b.value if isinstance(b, ast.Subscript) else None
                 if ba is not None and bb is not None and key(ba) == key(bb) and isinstance(ba, ast.Name) and ba.id in var_names:
                     tgt = comp.generators[0].target
-                    sl_ok = isinstance(a.slice, ast.Slice) and a.slice.lower is None and isinstance(b.slice, ast.Slice) and isinstance(b.slice.lower, ast.Constant) and b.slice.lower.value == 1
+                    def minus_one_or_open(u):
+                        return u is None or (isinstance(u, ast.UnaryOp) and isinstance(u.op, ast.USub) and isinstance(u.operand, ast.Constant) and u.operand.value == 1)
+
+                    sl_ok = isinstance(a.slice, ast.Slice) and a.slice.lower is None and minus_one_or_open(a.slice.upper) and a.slice.step is None \
+                        and isinstance(b.slice, ast.Slice) and isinstance(b.slice.lower, ast.Constant) and b.slice.lower.value == 1 and b.slice.upper is None and b.slice.step is None
                     order_ok = isinstance(tgt, ast.Tuple) and is_name(elt.left, tgt.elts[0].id) and is_name(elt.comparators[0], tgt.elts[1].id)
                     if sl_ok and order_ok and isinstance(elt.ops[0], ast.GtE):
                         return True, ""
@@ -137,6 +146,22 @@ def one_to_one(ctx) -> None:
         return
     wells_var = getattr(rets[0].elts[0], "id", None)
     tips_var = getattr(rets[0].elts[4], "id", None)
+    # the volumes handed to the command are the given ones rounded to two decimals (the resolution of the command)
+    vraw, vat = fv.def_expr(rets[0].elts[2], fv.return_nodes()[0].id)
+    core = vraw
+    while isinstance(core, ast.Call) and call_fname(core) in ("tolist", "list") and (core.args or isinstance(core.func, ast.Attribute)):
+        core = core.args[0] if core.args else core.func.value
+    dec = None
+    if isinstance(core, ast.Call) and call_fname(core) in ("round", "around", "round_"):
+        d_ = core.args[1] if len(core.args) > 1 else next((k.value for k in core.keywords if k.arg == "decimals"), ast.Constant(value=0))
+        dec = d_.value if isinstance(d_, ast.Constant) else "?"
+    elif is_sym(fv.res.resolve(vraw, vat), "comp") or isinstance(vraw, ast.ListComp):
+        for x in ast.walk(vraw):
+            if isinstance(x, ast.Call) and call_fname(x) == "round":
+                d_ = x.args[1] if len(x.args) > 1 else next((k.value for k in x.keywords if k.arg in ("decimals", "ndigits")), ast.Constant(value=0))
+                dec = d_.value if isinstance(d_, ast.Constant) else "?"
+    ctx.rep.check(True if dec == 2 else (None if dec is None else False), rule, f"{v.qualname}/volume-rounding", "the command volumes are the given volumes rounded to two decimals",
+                  f"the command volumes are `{show(vraw)[:60]}`" + (f" (rounded to {dec} decimals): the command moves a different amount than the tracking booked" if dec is not None else ": cannot find the rounding"), where=w)
     rets_nodes = fv.return_nodes()
     # the order that counts is that of the *returned* (converted / flattened) sequences: a check on the raw arguments
     # compares numbers 1-8 with Tip mask values, resp. an unflattened selection
